@@ -6,6 +6,7 @@ from . import compose as C, x4
 from .x4 import Poly
 
 from . import pathcond
+from .. import core as _core
 
 
 def _variants():
@@ -164,6 +165,15 @@ def rule_keep_unsynchronized(ctx):
         anchor(len(by.get('malloc', [])) == 1 and len(by.get('free', [])) >= 1, '%s: scratch malloc and free' % fname)
         n9 += 1
         acq, rel = by['malloc'][0], by['free']
+        # `if (sync_pj)` is the same test as the condition under which sync_pj was assigned (it starts out as NULL)
+        holder = None
+        for e in walk(cfront.body(fn)):
+            if cfront.is_assign(e) and any(x.get('kind') == 'CallExpr' and callee_name(x) == 'malloc' for x in walk(e['inner'][1])):
+                holder = render(e['inner'][0])
+        if holder:
+            own = lambda cs: frozenset(c_ for c_ in cs if c_ != holder) | (acq if holder in cs else frozenset())
+            rel = [own(r_) for r_ in rel]
+            by['memcpy'] = [own(c_) for c_ in by['memcpy']]
         if by['memcpy'][0] != acq:
             ctx.report('R09.9', fname + ':backup-cond', where, 'scratch buffer allocated under {%s} but filled under {%s}' % (', '.join(sorted(acq)), ', '.join(sorted(by['memcpy'][0]))))
         if acq not in rel or by['memcpy'][1] != acq:
@@ -217,6 +227,177 @@ def rule_sync_before_callbacks(ctx):
                 ctx.report('R09.5', 'step:%s:%s' % (seq[i], flag.split('.')[1]), where, 'after the callback %s the flag %s is not set: changes made by the callback are overwritten by the cached Jacobi/heliocentric state' % (seq[i], flag))
         samples.append('%s: %s' % (where, seq))
     ctx.covered('R09.5', 'callback sites in reb_simulation_step: synchronise before, recalculation flags after', n, floor=2, samples=samples)
+
+
+def _sim_member_of(tname):
+    """member of struct reb_simulation whose type is struct <tname>"""
+    from .. import layout
+    for m in layout.record_layouts()['reb_simulation'].members:
+        if '*' not in m.ctype and m.ctype.replace('struct ', '').strip() == tname:
+            return m.name
+    return None
+
+
+def _canon_member(e):
+    """r.ri_X.member for a MemberExpr reached through r->ri_X, a local pointer to it or a parameter of that struct type"""
+    e = strip(e)
+    if e.get('kind') != 'MemberExpr':
+        return None
+    b = strip(e['inner'][0])
+    bt = cfront.qtype(b).replace('const', '').replace('struct', '').replace('*', '').replace('restrict', '').strip()
+    if bt == 'reb_simulation':
+        return 'r.' + e['name']
+    host = _sim_member_of(bt)
+    if host:
+        return 'r.%s.%s' % (host, e['name'])
+    return None
+
+
+def _eval3(c, env):
+    """three-valued evaluation of a condition over canonical member paths: True / False / None (not determined).
+    Atoms that do not speak about the integrator selection or its deferred-mode flags are the trigger of the site
+    (a callback is installed, a particle is being rescaled): they count as true, negated or not."""
+    v = _ev(c, env)
+    return True if v == 'trigger' else v
+
+
+def _ev(c, env):
+    c = strip(c)
+    k = c.get('kind')
+    if k == 'UnaryOperator' and c.get('opcode') == '!':
+        v = _ev(c['inner'][0], env)
+        return v if v in (None, 'trigger') else (not v)
+    if k == 'BinaryOperator' and c.get('opcode') in ('&&', '||'):
+        a, b = _ev(c['inner'][0], env), _ev(c['inner'][1], env)
+        if a == 'trigger' and b == 'trigger':
+            return 'trigger'
+        a = True if a == 'trigger' else a
+        b = True if b == 'trigger' else b
+        if c['opcode'] == '&&':
+            if a is False or b is False:
+                return False
+            return True if (a is True and b is True) else None
+        if a is True or b is True:
+            return True
+        return False if (a is False and b is False) else None
+
+    def val(x):
+        x = strip(x)
+        if x.get('kind') == 'IntegerLiteral':
+            return int(x['value'])
+        if x.get('kind') == 'DeclRefExpr' and x.get('referencedDecl', {}).get('kind') == 'EnumConstantDecl':
+            return x['referencedDecl']['name']
+        p_ = _canon_member(x)
+        if p_ is not None and _STATE.search(p_):
+            return env.get(p_, ('?', p_))
+        return ('trigger', None)
+    if k == 'BinaryOperator' and c.get('opcode') in ('==', '!='):
+        a, b = val(c['inner'][0]), val(c['inner'][1])
+        for v in (a, b):
+            if isinstance(v, tuple):
+                return 'trigger' if v[0] == 'trigger' else None
+        return (a == b) if c['opcode'] == '==' else (a != b)
+    a = val(c)
+    if isinstance(a, tuple):
+        return 'trigger' if a[0] == 'trigger' else None
+    return bool(a)
+
+
+import re as _re
+_STATE = _re.compile(r'(\.integrator$|safe_mode$|is_synchronized$)')
+
+
+def rule_cache_invalidation(ctx):
+    """R09.10: integrators that keep their own copy of the coordinates between steps (a flag named recalculate_*_this_timestep
+    read in part1 next to safe_mode) must be told when anything outside the integrator changes the particles. For every
+    function outside the integrator files that raises such a flag, and every integrator that reads it, one of the raising
+    sites must be reached when that integrator runs in deferred mode (its safe_mode = 0, synchronised at the site)."""
+    itu = cfront.load_tu('integrator.c')
+    disp = {}
+    for sw in walk(cfront.body(itu.func('reb_integrator_part1'))):
+        if sw.get('kind') == 'CaseStmt':
+            lab = [x for x in walk(sw['inner'][0]) if x.get('kind') == 'DeclRefExpr']
+            callee = None
+            for x in walk(sw['inner'][-1]):
+                if x.get('kind') == 'CallExpr':
+                    callee = callee_name(x)
+                    break
+            if lab and callee:
+                disp[lab[0]['referencedDecl']['name']] = callee
+    anchor(len(disp) >= 8, 'reb_integrator_part1: switch over the integrators')
+    consumers = {}     # flag -> [(enum, safe_mode path, refuses variational)]
+    import glob, os
+    files = sorted(os.path.basename(f) for f in glob.glob(os.path.join(_core.REPO, 'src', 'integrator_*.c')))
+    part1 = {}
+    for f in files:
+        try:
+            tu = cfront.load_tu(f)
+        except Exception:
+            continue
+        for enum, callee in disp.items():
+            if callee in tu.funcs:
+                part1[enum] = (f, tu.func(callee))
+    for enum, (f, fn) in sorted(part1.items()):
+        refuses = False
+        for ifs in walk(cfront.body(fn)):
+            if ifs.get('kind') != 'IfStmt':
+                continue
+            cond = ifs['inner'][0]
+            mem = [_canon_member(x) for x in walk(cond) if x.get('kind') == 'MemberExpr']
+            mem = [m for m in mem if m]
+            if any(m == 'r.N_var_config' or m == 'r.N_var' for m in mem) and any(callee_name(x) in ('reb_simulation_error', 'reb_simulation_warning') for x in walk(ifs['inner'][1]) if x.get('kind') == 'CallExpr'):
+                refuses = True
+            flags = [m for m in mem if _re.search(r'recalculate_\w+_this_timestep$', m) and 'coordinates' in m]
+            safe = [m for m in mem if m.endswith('.safe_mode')]
+            for fl in flags:
+                if safe:
+                    consumers.setdefault(fl, {})[enum] = (safe[0], refuses, f)
+    anchor(len(consumers) >= 2 and sum(len(v) for v in consumers.values()) >= 3, 'integrators that read a recalculate_coordinates flag next to safe_mode in part1')
+    n = 0
+    samples = []
+    for cfile in sorted(os.path.basename(f) for f in glob.glob(os.path.join(_core.REPO, 'src', '*.c'))):
+        if cfile.startswith('integrator_') or cfile in ('output.c', 'input.c'):
+            continue
+        try:
+            tu = cfront.load_tu(cfile)
+        except Exception:
+            continue
+        for fname in sorted(tu.funcs):
+            fn = tu.func(fname)
+            body = cfront.body(fn)
+            if body is None:
+                continue
+            sites = {}
+            # sites are grouped by the top-level statement of the function they sit in (one group per callback block)
+            for gi, top in enumerate(body.get('inner', []) or []):
+                for e in walk(top):
+                    if cfront.is_assign(e) and e.get('opcode') == '=':
+                        fl = _canon_member(e['inner'][0])
+                        if fl in consumers and render(e['inner'][1]) == '1':
+                            sites.setdefault((fl, gi), []).append(e)
+            if not sites:
+                continue
+            pc = pathcond.conditions(fn, nodes=True)
+            loops_txt = ' '.join(render(l['inner'][2] if l.get('kind') == 'ForStmt' and l['inner'][2] else l['inner'][0]) for l in walk(body) if l.get('kind') in ('ForStmt', 'WhileStmt'))
+            for (fl, gi), es in sorted(sites.items()):
+                var_only = all(any('N_var_config' in render(c_) for c_ in pc.get(id(e), [])) for e in es) or fname.endswith('_var')
+                for enum, (safe, refuses, f) in sorted(consumers[fl].items()):
+                    if var_only and refuses:
+                        continue
+                    pre = safe.rsplit('.', 1)[0]
+                    env = {'r.integrator': enum, safe: 0, pre + '.is_synchronized': 1}
+                    n += 1
+                    verdicts = []
+                    for e in es:
+                        vs = [_eval3(c_, env) for c_ in pc.get(id(e), [])]
+                        verdicts.append(False if any(v is False for v in vs) else (None if any(v is None for v in vs) else True))
+                    if not any(v is True for v in verdicts):
+                        e = es[0]
+                        ctx.report('R09.10', '%s:%s:%s' % (fname, fl.split('.', 1)[1], enum), 'src/%s:%s %s' % (cfile, line_of(e), fname),
+                                   '%s changes the particles and raises %s, but not when %s runs with %s = 0 (site conditions: %s): %s keeps advancing its cached coordinates and the change is lost, while safe mode picks it up'
+                                   % (fname, fl, enum, safe, ' ; '.join(' && '.join(render(c_) for c_ in pc.get(id(x), [])) or 'unconditional' for x in es), f))
+                    samples.append('%s %s under %s: %s' % (fname, fl, enum, verdicts))
+    ctx.covered('R09.10', 'functions outside the integrators that raise a recalculate_coordinates flag x integrators reading that flag: raised in deferred mode', n, floor=4, samples=samples[:8])
 
 
 def rule_frames(ctx):
@@ -387,4 +568,5 @@ def run(ctx):
     rule_equivalence(ctx)
     rule_keep_unsynchronized(ctx)
     rule_sync_before_callbacks(ctx)
+    rule_cache_invalidation(ctx)
     ctx.not_decided.append('rounding-level equality of merged and split drifts; the EOS truncation claim; WHFast512 (AVX512 build is not the analysed configuration in the quick tier)')
